@@ -899,6 +899,9 @@ func (w *World) atAsserts(fr *Frame, st *State, kind string, ins ssa.Instruction
 		}
 		if as.Kind == kind && (as.Ord == ord || as.Ord == 0) {
 			w.firedAsserts[as] = true
+			if w.unrollN > 0 && !as.Clause.Star {
+				continue
+			}
 			env := w.contractEnv(fr, st, fr.entry)
 			for k, v := range vars {
 				env.vars[k] = v
@@ -944,6 +947,9 @@ func (w *World) fieldStoreAsserts(fr *Frame, st *State, fa *ssa.FieldAddr, v *Va
 			continue
 		}
 		w.firedAsserts[as] = true
+		if w.unrollN > 0 && !as.Clause.Star {
+			continue
+		}
 		env := w.contractEnv(top, st, top.entry)
 		env.vars["object"] = w.val(fr, st, fa.X)
 		env.vars["value"] = v
